@@ -33,7 +33,7 @@ K_F19 = 'F19-auto-join-inverted'
 K_F20 = 'F20-distributed-tasks-survive-stop'
 K_WD = 'C16-N1-stop-after-unrequested-loss-leaves-watchdog'
 K_CUT = 'C16-N2-loss-during-login-burst-leaves-stale-state'
-K_TRK = 'C16-N3-loss-inside-tracking-task-skips-session-destroy'
+K_TRK = 'C16-N3-loss-inside-tracking-task-leaves-orphan-worker'
 
 HANDLER_OF = {
     'SetListenPort': 'HNetwork', 'BranchLevel': 'HDistributed', 'BranchRoot': 'HDistributed', 'ToggleParentSearch': 'HDistributed',
@@ -489,15 +489,15 @@ def monitor(sc, res):
             should = 1 if (prev['session'] or kind == 'logincut') else 0
             leftovers = [k for k in ('session', 'msession', 'derived', 'dist') if s[k]]
             if destroyed != should or leftovers:
-                if kind == 'logincut' or (any(p['step'][0] == 'logincut' for p in recs[:i]) and destroyed == should
-                                          and set(leftovers) <= {'msession', 'derived'}):
+                cut_shape = destroyed == should and set(leftovers) <= {'msession', 'derived'}
+                if cut_shape and (kind == 'logincut' or any(p['step'][0] == 'logincut' for p in recs[:i])):
                     key = K_CUT
                     what = ('connection lost while the SessionInitialized handlers are sending: handlers after the failing one '
                             'still run on the dead connection and re-install session copies / tracking that are never cleared')
                 elif kind == 'lost_tracking' or any(p['step'][0] == 'lost_tracking' for p in recs[:i]):
                     key = K_TRK
-                    what = ('write error noticed inside a user tracking task: the CLOSED notification cancels the task that is '
-                            'delivering it, so the session is never destroyed and users/rooms are not reset')
+                    what = ('write error noticed inside a user tracking task: the loss is not notified completely '
+                            '(session / users / rooms not reset exactly once)')
                 else:
                     key = 'loss-not-reset'
                     what = 'after the server connection was lost the session / server-derived state is not cleared exactly once'
@@ -565,7 +565,8 @@ def monitor(sc, res):
             stop_idx = kinds.index('stop')
             conn_before = recs[stop_idx - 1]['state'] if stop_idx else {'conn': 'Uninit', 'watchdog': False}
             if 'lost_tracking' in kinds:
-                key, what = K_TRK, 'after a loss noticed inside a tracking task stop() does not shut the client down cleanly'
+                key, what = K_TRK, ('the tracking worker that noticed the loss of the server connection (failed write) gets the write error instead of '
+                                    'the cancellation, is dropped from the registry and keeps retrying: still pending after stop()')
             elif (conn_before['conn'] == 'Closed' and conn_before['watchdog'] and not si['exception'] and not si['listeners'] and
                   ('server-connection-watchdog-task' in si['tasks'] or si['opened_later'])):
                 key, what = K_WD, ('stop() while the server connection is CLOSED after an unrequested loss: disconnect() returns early, the '
@@ -701,7 +702,7 @@ def coq_event(step, sites):
 
 def coq_state(s, wedged, stopped):
     return (f'mkSt {s["conn"]} {_b(s["session"])} {_b(s["msession"])} {_b(s["derived"])} {_b(s["dist"])} {_b(s["watchdog"])} '
-            f'{_b(s["parents"])} {_b(wedged)} {_b(stopped)} {_b(s["pending"])}')
+            f'{_b(s["parents"])} {_b(stopped)} {_b(s["pending"])}')
 
 
 def coq_bmsg(t):
@@ -751,7 +752,7 @@ Definition mseq (a b : list bmsg) : bool := Nat.eqb (length a) (length b) && msu
 Definition ceq (a b : cstate) := match a, b with Uninit, Uninit | Connected, Connected | Closed, Closed => true | _, _ => false end.
 Definition steq (a b : st) := ceq (conn a) (conn b) && Bool.eqb (session a) (session b) && Bool.eqb (msession a) (msession b)
   && Bool.eqb (derived a) (derived b) && Bool.eqb (dist a) (dist b) && Bool.eqb (watchdog a) (watchdog b) && Bool.eqb (parents a) (parents b)
-  && Bool.eqb (wedged a) (wedged b) && Bool.eqb (stopped a) (stopped b) && Bool.eqb (pending a) (pending b).
+  && Bool.eqb (stopped a) (stopped b) && Bool.eqb (pending a) (pending b).
 Definition oidx (o : out) : nat := match o with OSessionInit => 0 | OSessionDestroyed => 1 | OBurst => 2 | ORefused => 3 | OSent => 4 | OConnect => 5 | OLoginSent => 6 | OIgnored => 7 | OStopRaised => 8 end.
 Definition visible (o : out) := negb (Nat.eqb (oidx o) 7).
 Fixpoint cnt (n : nat) (l : list out) := match l with [] => 0 | o :: r => (if Nat.eqb (oidx o) n then 1 else 0) + cnt n r end.
@@ -887,6 +888,12 @@ def run(run: Run):
                 explore(run, {'settings': st, 'steps': [['start', True]] + pre + [['lost', reason], ['command'], ['tick', True], ['login', 'ok'], ['stop']]},
                         cases, 'loss:' + pname)
                 explore(run, {'settings': st, 'steps': [['start', True]] + pre + [['lost', reason], ['stop']]}, cases, 'loss+stop:' + pname)
+    # the automatic re-login after an unrequested loss is answered by EOF / rejection / garbage; then the next watchdog periods
+    for reason in (('READ_ERROR',) if run.tier == 'quick' else ('READ_ERROR', 'WRITE_ERROR', 'TIMEOUT')):
+        for reply in ('eof', 'rejected', 'garbled'):
+            st = dict(base, reconnect=True)
+            explore(run, {'settings': st, 'steps': [['start', True], ['login', 'ok'], ['lost', reason], ['tick', True], ['login', reply],
+                                                     ['command'], ['tick', True], ['tick', True], ['stop']]}, cases, 'relogin:' + reply)
     # the connection breaks at every frame of the burst
     st = dict(base, reconnect=False, favorites=['roomA'], auto_join=False)
     for k in sorted(cut_sites_for(st)):
